@@ -15,6 +15,9 @@ import (
 	"sync"
 	"unicode/utf8"
 
+	"golang.org/x/text/secure/bidirule"
+	"golang.org/x/text/unicode/bidi"
+
 	"mellium.im/xmpp/jid"
 	"mellium.im/xmpp/verifharness/core"
 )
@@ -135,6 +138,13 @@ func unstablePart(j jid.JID) string {
 		return "separator-in-local"
 	}
 	if dj, err := jid.New("", d, ""); err != nil {
+		if bidirule.DirectionString(d) != bidi.LeftToRight {
+			for _, label := range strings.Split(d, ".") {
+				if !bidirule.ValidString(label) {
+					return "domain-bidi-rule"
+				}
+			}
+		}
 		return "domain-rejected"
 	} else if dj.Domainpart() != d {
 		return "domain-unstable"
@@ -565,6 +575,8 @@ func Prop() *core.Prop {
 		Witnesses: map[string]func(*core.Case){
 			"jid:L1:New:domain-trailing-dot":        witnessString("2.."),
 			"jid:L1:WithDomain:domain-trailing-dot": witnessWithDomain("a@example.net/r", "2.."),
+			"jid:L1:New:domain-bidi-rule":           witnessString("\u2136a"),
+			"jid:L1:WithDomain:domain-bidi-rule":    witnessWithDomain("a@example.net/r", "\u2136a"),
 		},
 		Require: []string{
 			"accepted", "rejected", "accepted_with_localpart", "accepted_with_resourcepart", "accepted_nonascii_domain",
